@@ -289,7 +289,7 @@ def rich_problem(rng, spacer_default=False, small=False):
                                                         0.002]))
     P['setup_sub']['Dump'] = {'coolant': True,
                               'interval': float(wl.choose(
-                                  rng, [0.01, 0.025, 0.05, 0.1]))}
+                                  rng, [0.01, 0.025, 0.05, 0.1, 0.0]))}
     P['setup_sub']['AssemblyTables'] = {
         'tab1': {'type': 'coolant_subchannel',
                  'assemblies': [1] if small else [1, 3],
@@ -375,7 +375,24 @@ def parse(P, u, d, fname):
         return None, {'outcome': 'exception', 'type': type(e).__name__,
                       'msg': str(e)[:200],
                       'site': site[-1] if site else '?'}, None
-    return plain(inp.data), {'outcome': 'ok'}, inp
+    data = plain(inp.data)
+    # the Material objects the parser creates are part of the internal data
+    # every model is built from: their state (temperature they were put at,
+    # property values) belongs to "the same internal SI data"
+    ms = {}
+    for nm, o in (getattr(inp, 'materials', None) or {}).items():
+        e = {}
+        for a in ('temperature', 'thermal_conductivity', 'density',
+                  'viscosity', 'heat_capacity'):
+            try:
+                v = getattr(o, a)
+            except Exception:     # noqa: property not defined for it
+                continue
+            if isinstance(v, (int, float, np.floating)):
+                e[a] = float(v)
+        ms[str(nm)] = e
+    data['MaterialState'] = ms
+    return data, {'outcome': 'ok'}, inp
 
 
 def check_parsed_ok(res, u, oc, extra=None):
@@ -539,8 +556,8 @@ def check_same_data(res, P, u, ref, data, bad, ref_name='SI'):
         if any(k == p or k.startswith(p + '[') for p in done):
             continue
         a, b = fa.get(k, '<absent>'), fb.get(k, '<absent>')
-        if k == '/Setup/Dump/interval' and not (
-                P.get('setup_sub', {}).get('Dump', {}).get('interval')):
+        if k == '/Setup/Dump/interval' and P.get('setup_sub', {}).get(
+                'Dump', {}).get('interval') is None:
             # a default, not a converted key: observation only
             res.tag('obs_dump_interval_default:%s->%r' % (
                 'SI' if u.length == 'm' else 'nonSI', b))
